@@ -14,7 +14,7 @@ from mc.core import Check, h
 from mc.vloop import World, Livelock
 
 DELAYS = [0.25, 0.5, 1.0]
-OPS = ([("cb",), ("cb_raise",), ("cb_failfut",), ("spawn",), ("cb_nested",)] +
+OPS = ([("cb",), ("cb_raise",), ("cb_failfut",), ("spawn",), ("cb_nested",), ("cb_raise_bad",)] +
        [(k, d) for k in ("to_abs", "to_delta", "later", "at") for d in DELAYS] +
        [("to_delta", 86400.5), ("to_delta", -1.0)] +
        [("block", 0.6), ("to_abs_at", 0.5), ("to_abs_at", 0.3), ("addfut_cf_done",)] +
@@ -26,9 +26,13 @@ class Boom(Exception):
     pass
 
 
-def run_program(prog):
+def run_program(prog, shifted=False):
     with World() as w:
         io = w.ioloop
+        if shifted:
+            # an IOLoop whose time() is not time.time() (documented as overridable, e.g. a monotonic clock): every
+            # deadline - relative, timedelta or absolute - is measured on that clock
+            io.time = lambda: 1000.0 + w.loop.vtime
         log = []          # (name, vtime)
         sched = {}        # name -> dict(kind, seq, deadline, removed_at_log_index)
         handles = []      # timeout handles in scheduling order: (name, handle)
@@ -70,6 +74,15 @@ def run_program(prog):
                 def f():
                     log.append((name, w.loop.vtime))
                     raise Boom(name)
+                io.add_callback(f)
+            elif k == "cb_raise_bad":
+                reg(name, "callback")
+
+                def f():
+                    # what gen.with_timeout / gen.multi / convert_yielded raise when handed a non-awaitable
+                    from tornado import gen
+                    log.append((name, w.loop.vtime))
+                    raise gen.BadYieldError(name)
                 io.add_callback(f)
             elif k == "cb_failfut":
                 reg(name, "callback")
@@ -195,7 +208,7 @@ def judge_program(prog, o):
         if info["kind"] == "addfut" and name in names and (name + "#returned") in names:
             if names.index(name) < names.index(name + "#returned"):
                 bad.append(("add_future-callback-inline", "%s ran before the completing call returned" % name))
-    nraise = sum(1 for n in names if n.split(":")[-1] in ("cb_raise", "cb_failfut", "to_raise"))
+    nraise = sum(1 for n in names if n.split(":")[-1] in ("cb_raise", "cb_failfut", "to_raise", "cb_raise_bad"))
     if len(o["errlogs"]) != nraise:
         bad.append(("error-logging", "%d raising callbacks ran, %d ERROR records: %r" % (nraise, len(o["errlogs"]), o["errlogs"][:2])))
     if o["escaped"]:
@@ -222,6 +235,7 @@ def run_sync_case(kind, timeout):
             return "slept"
 
         async def never():
+            marks.append("started")
             try:
                 await asyncio.Future()
             finally:
@@ -309,7 +323,8 @@ def judge_sync(kind, timeout, o):
         else:
             if o["res"] != ("exc", "TimeoutError"):
                 bad.append(("run_sync-timeout:%s" % (o["res"],), "expected TimeoutError, got %r" % (o["res"],)))
-            if o["marks"] != ["cancelled-or-finished"]:
+            # (with a zero timeout the function may be cancelled before its body ever started)
+            if o["marks"] not in (["started", "cancelled-or-finished"], [] if not timeout else None):
                 bad.append(("run_sync-timeout-not-cancelled", "the function was not cancelled after the timeout"))
             if abs(o["vtime"] - timeout) > 1e-3:
                 bad.append(("run_sync-timeout-time", "timed out at virtual time %r" % o["vtime"]))
@@ -326,13 +341,13 @@ def judge_sync(kind, timeout, o):
 class C38(Check):
     id = "C38"
     level = "model_checking"
-    rule = ("(a) all programs of <= L scheduling calls over 32 operations {add_callback, spawn_callback, raising callback, "
+    rule = ("(a) all programs of <= L scheduling calls over 33 operations {add_callback, spawn_callback, raising callback, "
             "callback returning a failing future, callback scheduling a callback and a timeout, add_timeout absolute / "
             "timedelta, call_later, call_at with delays 0.25/0.5/1.0, timedelta of 1 day + 0.5 s and of -1 s, the loop being busy for 0.6 s, absolute deadlines 0.3 / 0.5 s after the "
             "program start (possibly already past), add_future on a done concurrent.futures.Future, a raising timeout, remove_timeout of the 1st/2nd "
             "timeout immediately / from a callback / from a timeout, add_future on a done and on a pending future} on the "
             "real IOLoop with a virtual clock, timers fired in order; (b) run_sync x {async returns, raises, sleeps, never "
-            "finishes, plain function returns / raises, gen.coroutine} x timeout {None, 0.5, 2}; (c) 2 foreign threads x 2 "
+            "finishes, plain function returns / raises, gen.coroutine} x timeout {None, 0.5, 2, and 0 for functions that need another loop iteration}; programs of <= 2 calls again on a loop whose time() is its own clock; (c) 2 foreign threads x 2 "
             "add_callback each (thread 0 optionally inside another running event loop) against the loop thread, all interleavings up to a preemption bound under a controlled "
             "scheduler (mc.tsched); state = one program / schedule; non-trivial = programs with a timeout, removal, "
             "raising callback or add_future")
@@ -378,10 +393,18 @@ class C38(Check):
                         st.sample({"program": [list(op) for op in prog], "log": o["log"]})
                     for sig, msg in judge_program(prog, o):
                         st.violation("prog:" + sig, "program %r: %s" % (prog, msg), {"kind": "prog", "prog": [list(op) for op in prog]})
+                    if n <= 2 and any(op[0] in ("to_abs", "to_delta", "later", "at", "to_raise", "to_rm", "cb_nested") for op in prog):
+                        o2 = run_program(prog, shifted=True)
+                        st.ev()
+                        st.states.add(h((prog, "shifted")))
+                        st.nontrivial.add(h((prog, "shifted")))
+                        for sig, msg in judge_program(prog, o2):
+                            st.violation("prog:own-clock:" + sig, "loop with its own time(), program %r: %s" % (prog, msg),
+                                         {"kind": "prog", "prog": [list(op) for op in prog], "shifted": True})
             st.setmax("max_program_length", L)
         elif part[0] == "sync":
             for kind in ("returns", "raises", "sleeps", "never", "plain", "plain_raises", "gen_style", "busy_then_done"):
-                for timeout in (None, 0.5, 2):
+                for timeout in (None, 0.5, 2) + ((0, 0.0) if kind in ("never", "sleeps") else ()):
                     o = run_sync_case(kind, timeout)
                     st.ev()
                     st.transitions += 1
@@ -407,7 +430,7 @@ class C38(Check):
     def replay(self, case):
         if case["kind"] == "prog":
             prog = tuple(tuple(op) for op in case["prog"])
-            o = run_program(prog)
+            o = run_program(prog, shifted=case.get("shifted", False))
             return "program %r\nlog %r\nerrlogs %r\nverdict %r" % (prog, o["log"], o["errlogs"], judge_program(prog, o))
         if case["kind"] == "sync2":
             return repr(run_sync_after_stopped(case["timeout"]))
